@@ -80,7 +80,11 @@ func cmdRun(args []string) {
 	eng.maxSecs = *maxSecs
 	if *tables != "" {
 		_, files, _ := prepareOverlay()
-		if err := eng.buildHostTables(strings.Split(*tables, ","), files, "quick"); err != nil {
+		tier := "quick"
+		if *thorough {
+			tier = "thorough"
+		}
+		if err := eng.buildHostTables(strings.Split(*tables, ","), files, tier); err != nil {
 			fmt.Fprintln(os.Stderr, "host tables:", err)
 			os.Exit(2)
 		}
